@@ -919,3 +919,128 @@ func (f *Func) hasLinAtom(atoms []Atom, op token.Token, k int64, terms map[strin
 		return ok && l.is(op, k, terms)
 	})
 }
+
+// caseValues: the values a case clause compares its switch's subject with. A switch over a variable reaches the rules
+// as a switch without tag (canonSwitch): `case v == a || v == b:`; the values are then a and b. Anything else in the
+// list is returned as it stands.
+func caseValues(cc *ast.CaseClause) []ast.Expr {
+	var out []ast.Expr
+	var walk func(e ast.Expr)
+	walk = func(e ast.Expr) {
+		e = ast.Unparen(e)
+		if b, ok := e.(*ast.BinaryExpr); ok {
+			switch b.Op {
+			case token.LOR:
+				walk(b.X)
+				walk(b.Y)
+				return
+			case token.EQL:
+				out = append(out, b.Y)
+				return
+			}
+		}
+		out = append(out, e)
+	}
+	for _, e := range cc.List {
+		walk(e)
+	}
+	return out
+}
+
+// pureRead: the selector is only measured or compared where it stands (the operand of len/cap, of a comparison, or a
+// value of basic type): nothing that could be modified through it is handed on.
+func pureRead(f *Func, sel *ast.SelectorExpr) bool {
+	if _, isBasic := f.TypeOf(sel).Underlying().(*types.Basic); isBasic {
+		return true
+	}
+	switch p := f.ParentOf(sel).(type) {
+	case *ast.CallExpr:
+		name := f.BuiltinName(p)
+		return name == "len" || name == "cap"
+	case *ast.BinaryExpr:
+		switch p.Op {
+		case token.EQL, token.NEQ:
+			return true
+		}
+	}
+	return false
+}
+
+// constTable: what a package-level variable holds for the whole run: its initialiser, provided nothing in its package
+// assigns to it, to one of its elements, or takes its address (a table like `var keys = [...]string{…}` is then as good
+// as the literal written where it is used). nil otherwise.
+func (c *Ctx) constTable(rel string, obj types.Object) ast.Expr {
+	v, ok := obj.(*types.Var)
+	if !ok || v.IsField() || v.Pkg() == nil || v.Parent() != v.Pkg().Scope() {
+		return nil
+	}
+	pk := c.P.Pkg(rel)
+	if pk == nil || pk.Types != v.Pkg() {
+		return nil
+	}
+	var init ast.Expr
+	for _, f := range pk.Syntax {
+		for _, d := range f.Decls {
+			gd, ok := d.(*ast.GenDecl)
+			if !ok || gd.Tok != token.VAR {
+				continue
+			}
+			for _, sp := range gd.Specs {
+				vs := sp.(*ast.ValueSpec)
+				for i, nm := range vs.Names {
+					if pk.TypesInfo.Defs[nm] == obj && len(vs.Values) == len(vs.Names) {
+						init = vs.Values[i]
+					}
+				}
+			}
+		}
+	}
+	if init == nil {
+		return nil
+	}
+	for _, f := range c.funcsWithLits(rel) {
+		if f.Lit != nil {
+			continue // literals are covered by the deep walk of their root
+		}
+		bad := false
+		for _, w := range Writes(f.Body, true) {
+			e := w.LHS
+			for {
+				switch x := ast.Unparen(e).(type) {
+				case *ast.IndexExpr:
+					e = x.X
+					continue
+				case *ast.StarExpr:
+					e = x.X
+					continue
+				}
+				break
+			}
+			if f.ObjOf(e) == obj {
+				bad = true
+			}
+		}
+		ast.Inspect(f.Body, func(n ast.Node) bool {
+			if u, ok := n.(*ast.UnaryExpr); ok && u.Op == token.AND && f.ObjOf(u.X) == obj {
+				bad = true
+			}
+			if sl, ok := n.(*ast.SliceExpr); ok && f.ObjOf(sl.X) == obj {
+				bad = true // a slice of an array aliases it
+			}
+			return !bad
+		})
+		if bad {
+			return nil
+		}
+	}
+	return init
+}
+
+// orOperands: the operands of a (possibly nested, parenthesised) || expression, left to right; e itself otherwise.
+func orOperands(e ast.Expr) []ast.Expr {
+	e = ast.Unparen(e)
+	if b, ok := e.(*ast.BinaryExpr); ok && b.Op == token.LOR {
+		return append(orOperands(b.X), orOperands(b.Y)...)
+	}
+	return []ast.Expr{e}
+}
